@@ -11,7 +11,7 @@ ASSUMPTIONS = ["reads inside tasks awaited by two parents (and below them) are n
 def strategy(tier):
     return gen.programs(gen.Cfg(max_tasks=12 if tier == "quick" else 40, sync=True, ctx=("ov", "ov", "attr", "rec"), reads=True, dag=True,
                                 convs=("call", "value", "wrapper"), ok_w=20,
-                                shapes=("stagger", "stagger", "comb", "tree", "chain", "reentry", "diamond", "free", "free")))
+                                shapes=("ctxcomb", "ctxcomb", "ctxcomb", "stagger", "comb", "tree", "chain", "reentry", "diamond", "free", "free")))
 
 
 def check(prog, ctx):
